@@ -82,7 +82,7 @@ private theorem walkList_Q {g : Node → Res (List Ev)} (hg : ∀ c tr, g c = .o
         exact Q_append (hg c t1 h1) (ih t2 h2)
 
 /-- ids of an attribute found by `lookup` are ids of the attribute list -/
-private theorem lookup_ids_mem (a : String) (x : Attr) :
+theorem lookup_ids_mem (a : String) (x : Attr) :
     ∀ attrs : List (String × Attr), attrs.lookup a = some x → ∀ i ∈ idsAttr x, i ∈ idsAttrs attrs := by
   intro attrs
   induction attrs with
@@ -96,7 +96,7 @@ private theorem lookup_ids_mem (a : String) (x : Attr) :
     | true => simp only [hab, Option.some.injEq] at h; subst h; exact Or.inl hi
     | false => simp only [hab] at h; exact Or.inr (ih h i hi)
 
-private theorem lookup_ids_nodup (a : String) (x : Attr) :
+theorem lookup_ids_nodup (a : String) (x : Attr) :
     ∀ attrs : List (String × Attr), attrs.lookup a = some x → (idsAttrs attrs).Nodup → (idsAttr x).Nodup := by
   intro attrs
   induction attrs with
@@ -111,7 +111,7 @@ private theorem lookup_ids_nodup (a : String) (x : Attr) :
     | false => simp only [hab] at h; exact ih h hnd.2.1
 
 /-- different attributes of a node with distinct identities hold disjoint sets of nodes -/
-private theorem lookup_ids_disjoint (a b : String) (x y : Attr) (hab : a ≠ b) :
+theorem lookup_ids_disjoint (a b : String) (x y : Attr) (hab : a ≠ b) :
     ∀ attrs : List (String × Attr), attrs.lookup a = some x → attrs.lookup b = some y → (idsAttrs attrs).Nodup →
       ∀ i, i ∈ idsAttr x → i ∈ idsAttr y → False := by
   intro attrs
